@@ -289,8 +289,7 @@ def applyOutcome (env : Env) (cfg : Cfg) (d : Dyn) (file : FileId) (i : Info) : 
 
 /-- `add_error_info(info, file=file)` -/
 def addErrorInfo (env : Env) (cfg : Cfg) (d : Dyn) (i : Info) (fileArg : Option FileId) : Dyn :=
-  let file := fileArg.getD cfg.file
-  applyOutcome env cfg d file i (ignoreStage env cfg file i)
+  applyOutcome env cfg d (fileArg.getD cfg.file) i (ignoreStage env cfg (fileArg.getD cfg.file) i)
 
 /-! ### Errors.report -/
 
